@@ -1152,8 +1152,11 @@ def check_p5(ctx) -> None:
                   'GeophiresXClient.get_geophires_result/cache-store', f'{f.module.rel}:{st.lineno}',
                   f'`{norm(st)}` does not store this request\'s result under this request\'s key')
     res = [st for st in ast.walk(f.node) if isinstance(st, ast.Assign) and norm(st.targets[0]) == 'result']
+    from gxstat.inline import inline_sequential as _inl5
     for st in res:
-        ctx.check('input_params.get_output_file_path()' in norm(st.value), 'P5',
+        # read through a hoisted local (`output_file_path = input_params.get_output_file_path()`; also across the try / with around the run)
+        ctx.check('input_params.get_output_file_path()' in norm(st.value) or
+                  'input_params.get_output_file_path()' in norm(_inl5(st.value, st, cross=(ast.If, ast.With, ast.Try), cross_loops=False)), 'P5',
                   'GeophiresXClient.get_geophires_result/result-from-own-output', f'{f.module.rel}:{st.lineno}',
                   f'`{norm(st)}`: the result is not parsed from the output file of this request')
     # the output path handed to the simulator is the one parsed afterwards
